@@ -84,6 +84,7 @@ class Model:
     def __init__(self, R, rig):
         self.R, self.rig = R, rig
         self.frames = [self.frame(rig.read_committed)]
+        self.stale = {}   # (id(obj), key) -> reload-log length when it became stale (S8)
 
     def frame(self, reader):
         import sqlalchemy as sa
@@ -132,7 +133,7 @@ def judge_boundary(ctx, R, rig, model, op, ops, kd, pre_commit_dump, stats, relo
     import sqlalchemy as sa
 
     kind = op[0]
-    exclude = set()
+    fresh_stale = set()
     if kind == "spr":
         # S8: attributes an object loaded while the savepoint was open (not loaded when the
         # frame was taken, or the object was loaded / refreshed / expired since) keep their
@@ -143,8 +144,18 @@ def judge_boundary(ctx, R, rig, model, op, ops, kd, pre_commit_dump, stats, relo
             was = fr["loaded"].get(id(o))
             for k in list(sa.inspect(o).dict):
                 if was is None or id(o) in reloaded or k not in was:
-                    exclude.add((id(o), k))
-        ctx.count("s8_pairs_excluded", len(exclude))
+                    fresh_stale.add((id(o), k))
+    # S8 pairs stay stale until the object is expired / refreshed again
+    now = len(rig.reload_log)
+    for pair in fresh_stale:
+        model.stale[pair] = now
+    byid = {id(o): o for o in rig.objs}
+    for (oid, k), idx in list(model.stale.items()):
+        o = byid.get(oid)
+        if o is None or k not in sa.inspect(o).dict or oid in rig.reload_log[idx:]:
+            del model.stale[(oid, k)]
+    exclude = set(model.stale)
+    ctx.count("s8_pairs_excluded", len(exclude))
     ctx.count("boundaries_judged")
 
     def vio(mech, summary, extra=None):
@@ -197,7 +208,7 @@ def judge_boundary(ctx, R, rig, model, op, ops, kd, pre_commit_dump, stats, relo
                     # the row may belong to another object by now (row switch / rowid reuse)
                     for o2 in rig.objs:
                         st2 = sa.inspect(o2)
-                        if o2 is not o and not st2._deleted and (
+                        if o2 is not o and st2.key is not None and (
                                 st2.key == st.key or st.key[1] in rig.idents_seen.get(id(o2), ())):
                             has_row = False
                 if k == "deleted" and not has_row:
